@@ -64,7 +64,7 @@ Definition entries_match_view (es : list (nat * Z)) (v : view) (minp : bool) : b
 Definition best_ok (tol : Z) (v : view) (p : spol) (best : option nat) : bool :=
   match p with
   | SRandom => negb (is_some best)
-  | SMin _ => match best with Some b => within_tol tol v b | None => true end
+  | SMin _ => match best with Some b => within_tol tol v b | None => match v with [] => true | _ => false end end
   end.
 
 Definition model_sets (g : group) : ntype -> aset :=
